@@ -682,6 +682,10 @@ func (d *decoderImpl) decodeValue(v reflect.Value) error {
 			return err
 		}
 		if err := decodeRecursiveFields(d2, elem); err != nil {
+			if err == ErrNilValue {
+				// nil for a field that cannot be nil; it is not the struct that is nil
+				return cerrors.Wrap(ErrInvalidFormat, "InvalidFormat(NilField)")
+			}
 			return err
 		}
 		return d.flush()
